@@ -3,6 +3,7 @@ package main
 import (
 	"fmt"
 	"io"
+	"sort"
 	"strings"
 
 	"github.com/nelhage/taktician/ai"
@@ -21,4 +22,29 @@ func genAI(w io.Writer) {
 		names = append(names, fmt.Sprintf("%d=%s", int(f), f.String()))
 	}
 	fmt.Fprintf(w, "(* features: %s *)\n", strings.Join(names, " "))
+	// the name table of ai/json.go as its init() built it (name bytes, index), in sorted name order, and
+	// Feature(i).String() for i < MaxFeature (what MarshalJSON writes)
+	bytesOf := func(s string) string {
+		b := make([]string, len(s))
+		for i := 0; i < len(s); i++ {
+			b[i] = fmt.Sprint(s[i])
+		}
+		return "[" + strings.Join(b, "; ") + "]"
+	}
+	tbl := ai.VerifFeatureNames()
+	var keys []string
+	for k := range tbl {
+		keys = append(keys, k)
+	}
+	sort.Strings(keys)
+	var ents []string
+	for _, k := range keys {
+		ents = append(ents, fmt.Sprintf("(%s, %d) (* %s *)", bytesOf(k), tbl[k], strings.ReplaceAll(k, "*)", "* )")))
+	}
+	fmt.Fprintf(w, "Definition gen_featureNames : list (list N * N) :=\n  [%s]%%N.\n", strings.Join(ents, ";\n   "))
+	var strs []string
+	for f := ai.Feature(0); f < ai.MaxFeature; f++ {
+		strs = append(strs, bytesOf(f.String()))
+	}
+	fmt.Fprintf(w, "Definition gen_featureStrings : list (list N) :=\n  [%s]%%N.\n", strings.Join(strs, ";\n   "))
 }
